@@ -4,6 +4,7 @@ import (
 	"bytes"
 	"encoding/binary"
 	"fmt"
+	"os"
 	"reflect"
 	"time"
 
@@ -296,7 +297,7 @@ type c09StaleCase struct {
 	Answer     []bool `json:"answered_while_the_loop_is_busy"`
 }
 
-func c09Stale(c *c09StaleCase, res *vh.Result) (finds [][2]string, abort string, sig string) {
+func c09Stale(ci int, c *c09StaleCase, res *vh.Result) (finds [][2]string, abort string, sig string) {
 	add := func(sg, desc string) { finds = append(finds, [2]string{"C09:" + sg, desc}) }
 	dp := vh.NewModelDP()
 	gate := make(chan struct{})
@@ -434,7 +435,13 @@ func c09Stale(c *c09StaleCase, res *vh.Result) (finds [][2]string, abort string,
 			add(vh.FaultSig(fs[0]), "fatal: "+fs[0])
 			return finds, "", ""
 		}
-		return nil, "marker heartbeat unanswered", ""
+		// the server no longer answers (its loop is blocked: C18's subject, not decided here); stopping it would
+		// hang as well, so this worker process is given up and the run continues in a fresh one
+		res.Inconc(fmt.Sprintf("case %d: the UPF stopped answering after the held loop was released (marker heartbeat unanswered for 5 s)", ci))
+		res.Eval("")
+		res.NextCase = ci + 1
+		res.Write(false)
+		os.Exit(3)
 	}
 	// let every timer that is (wrongly or rightly) still armed run out
 	time.Sleep(time.Duration(int(c.MaxRetrans)+3) * rt)
@@ -530,7 +537,7 @@ func runC09(res *vh.Result) {
 			for k := 0; k < c.N; k++ {
 				c.Answer = append(c.Answer, rng.Chance(3, 4))
 			}
-			finds, abort, sig := c09Stale(&c, res)
+			finds, abort, sig := c09Stale(i, &c, res)
 			if abort != "" {
 				res.Inconc(fmt.Sprintf("case %d: %s", i, abort))
 			}
